@@ -341,11 +341,12 @@ def find_beacon_config_bytes(fh: BinaryIO, xorkey: bytes) -> Iterator[bytes]:
     CONFIG_HEADER = b"\x00\x01\x00\x01\x00\x02\x00"
     xorred_config_block = xor(CONFIG_HEADER, xorkey)
 
+    guardrail_areas = {}
     for pos in iter_find_needle(fh, xorred_config_block, start_offset=0):
-        if has_guardrail_config(fh, pos):
-            # Guardrails: masked with an environmental key that happens to start with repeated bytes, it only looks
-            # like a config block under `xorkey`. Left to `iter_guardrail_configs_with_beacon`.
-            logger.debug(f"Ignoring CONFIG_HEADER at {pos} using xorkey: 0x{xorkey.hex()}, guardrail config follows")
+        if has_guardrail_config(fh, pos, guardrail_areas):
+            # Guardrails: the area is masked with an environmental key as well, these bytes only look like the start
+            # of a config block under `xorkey`. Left to `iter_guardrail_configs_with_beacon`.
+            logger.debug(f"Ignoring CONFIG_HEADER at {pos} using xorkey: 0x{xorkey.hex()}, Guardrails protected")
             continue
         fh.seek(pos)
         data = fh.read(PATCH_SIZE)
